@@ -117,6 +117,21 @@ func c02Value(code string) (starlark.Value, error) {
 		return starlark.MakeInt(1), nil
 	case "im1":
 		return starlark.MakeInt(-1), nil
+	case "i2", "im2", "i5", "im5", "i100", "im100":
+		n := map[string]int{"i2": 2, "im2": -2, "i5": 5, "im5": -5, "i100": 100, "im100": -100}[code]
+		return starlark.MakeInt(n), nil
+	case "s_abc":
+		return starlark.String("abc"), nil
+	case "b_abc":
+		return starlark.Bytes("abc"), nil
+	case "t_123":
+		return starlark.Tuple(ints(1, 2, 3)), nil
+	case "s_pct":
+		return starlark.String("%s %d %r %x %c %%"), nil
+	case "s_pct1":
+		return starlark.String("%d"), nil
+	case "s_pctmap":
+		return starlark.String("%(a)s %(b)r"), nil
 	case "i2p31":
 		return pow2(31, false), nil
 	case "im2p31":
@@ -208,9 +223,9 @@ func c02Value(code string) (starlark.Value, error) {
 			s.Freeze()
 		}
 		return s, nil
-	case "r10", "r_huge":
+	case "r10", "r_huge", "r0", "r3":
 		th := &starlark.Thread{}
-		n := starlark.Value(starlark.MakeInt(10))
+		n := starlark.Value(starlark.MakeInt(map[string]int{"r10": 10, "r0": 0, "r3": 3}[code]))
 		if code == "r_huge" {
 			n = pow2(62, false)
 		}
